@@ -116,6 +116,8 @@ class ParserTotal(BoundedCheck):
         printed = []
         real_print = builtins.print
         mods = set(sys.modules)
+        import warnings as _w
+        filters_before = list(_w.filters)
         cwd = os.getcwd()
         builtins.print = lambda *a, **k: printed.append(a)
         try:
@@ -132,6 +134,9 @@ class ParserTotal(BoundedCheck):
         finally:
             builtins.print = real_print
         new_mods = set(sys.modules) - mods - {'unicodedata'}     # (compiling a non-ASCII identifier imports unicodedata: not an effect of the statement)
+        if list(_w.filters) != filters_before:
+            _w.filters[:] = filters_before
+            out.append(Violation('parsing has no effect outside the returned objects (process-wide warning filters)', 'c13.side-effect:warnings-filters', s, 'unchanged', 'changed', 'no_effect'))
         if printed or new_mods or os.getcwd() != cwd:
             out.append(Violation('parsing never executes the model\'s statements and has no effect outside the returned objects',
                                  'c13.side-effect:syntax-check-executes-statement', s, 'no effect', f'printed={printed[:1]} imported={sorted(new_mods)[:2]}', 'no_exec'))
